@@ -55,6 +55,17 @@ def find_rrt_cases(script, scope, cases, text):
                 have = t.func(*[vals[r] for r in t.regrefs])
             except ZeroDivisionError:
                 continue
+            if all(isinstance(v, int) for v in vals.values()):
+                # the same integer results as NumPy integers (what a simulator returns for photon numbers)
+                try:
+                    have_np = t.func(*[np.int64(vals[r]) for r in t.regrefs])
+                except ZeroDivisionError:
+                    have_np = have
+                except Exception as ex:  # noqa: BLE001
+                    return "transform of %s applied to NumPy integer results %s raises %r" % (gen.r_expr(e, gen.Layout()), vals, ex)
+                if not (np.all(np.isfinite(have_np)) and canon.close(have_np, want, 1e-9, 1e-12)) and np.all(np.isfinite(have_np)):
+                    return "transform of %s gives %r at the NumPy integers %s, the written formula gives %r" % (
+                        gen.r_expr(e, gen.Layout()), have_np, vals, want)
             if not isinstance(have, (int, float, complex, np.number)):
                 return "transform of %s applied to the values of its listed registers returns %r, not a number" % (
                     gen.r_expr(e, gen.Layout()), have)
@@ -147,7 +158,7 @@ def substr_corr(ctx, texts):
             ctx.traces += 1
 
 
-def check_intpoint(text, vals, want):
+def check_intpoint(text, vals, want, np_too=False):
     """the transform of the first argument at integer values, against exact Python arithmetic"""
     r = core.impl_loads(text)
     if r[0] != "ok":
@@ -164,7 +175,17 @@ def check_intpoint(text, vals, want):
         ok = (not isinstance(have, bool)) and have == want
     else:
         ok = canon.close(have, want, 1e-12, 0.0)
-    return None if ok else "transform %s gives %r at %s, exact arithmetic gives %r" % (t.func_str, have, vals, want)
+    if not ok:
+        return "transform %s gives %r at %s, exact arithmetic gives %r" % (t.func_str, have, vals, want)
+    if np_too and not isinstance(want, int) and all(abs(v) < 2 ** 15 for v in vals.values()):
+        # the same values as NumPy integers (fractional results only: no 64-bit wrap-around is involved)
+        try:
+            have_np = t.func(*[np.int64(vals[q]) for q in t.regrefs])
+        except Exception as ex:  # noqa: BLE001
+            return "transform %s applied to the NumPy integers %s raises %r" % (t.func_str, vals, ex)
+        if not canon.close(have_np, want, 1e-9, 0.0):
+            return "transform %s gives %r at the NumPy integers %s, exact arithmetic gives %r" % (t.func_str, have_np, vals, want)
+    return None
 
 
 def check_mixed(text, pn, regs):
@@ -199,7 +220,7 @@ def check_mixed(text, pn, regs):
 def replay(ctx, data):
     if data.get("kind") == "intpoint":
         w = data["want"]
-        return check_intpoint(data["text"], {int(k): v for k, v in data["vals"].items()}, float(w) if ("." in w or "e" in w) else int(w))
+        return check_intpoint(data["text"], {int(k): v for k, v in data["vals"].items()}, float(w) if ("." in w or "e" in w) else int(w), data.get("np_too", False))
     if data.get("kind") == "mixed":
         return check_mixed(data["text"], data["param"], data["regs"])
     if data.get("kind") == "tiny":
@@ -310,15 +331,21 @@ def run(ctx):
             ("q%d**2*q%d**12 - 3*q%d" % (a, b, a), lambda x, y: x ** 2 * y ** 12 - 3 * x),
             ("1000003*q%d**3/(q%d + 1)" % (a, b), lambda x, y: 1000003 * x ** 3 / (y + 1)),
             ("q%d**9 - 3*q%d**8 + q%d" % (a, a, b), lambda x, y: x ** 9 - 3 * x ** 8 + y),
-            ("(q%d + 1)**11 - q%d**11*q%d" % (a, a, b), lambda x, y: (x + 1) ** 11 - x ** 11 * y)])
+            ("(q%d + 1)**11 - q%d**11*q%d" % (a, a, b), lambda x, y: (x + 1) ** 11 - x ** 11 * y),
+            ("1/(q%d + q%d)**2" % (a, b), lambda x, y: 1 / (x + y) ** 2),
+            ("q%d**-3 + q%d" % (a, b), lambda x, y: x ** -3 + y),
+            ("q%d + 1/q%d**2" % (b, a), lambda x, y: y + 1 / x ** 2)])
         text = "name r\nversion 1.0\n\nDgate(%s, 0.5) | 3\n" % form
         x, y = ctx.rng.choice([(7, 41), (2500000, 1), (99991, 3), (12, 2 ** 40)])
+        recip = "1/" in form or "**-" in form
+        if recip:
+            x, y = ctx.rng.choice([(7, 41), (3, 5), (12, 2)])
         ctx.count("integer-results-beyond-64-bits")
         ctx.case((text, x, y), nontrivial=True)
         texts.append(text)
-        msg = check_intpoint(text, {a: x, b: y}, fn(x, y))
+        msg = check_intpoint(text, {a: x, b: y}, fn(x, y), np_too=recip)
         if msg:
-            ctx.violation("register transform: " + msg, {"kind": "intpoint", "text": text, "vals": {str(a): x, str(b): y}, "want": repr(fn(x, y))})
+            ctx.violation("register transform: " + msg, {"kind": "intpoint", "text": text, "vals": {str(a): x, str(b): y}, "want": repr(fn(x, y)), "np_too": recip})
     # a register argument next to a pure template-parameter argument in one statement: the parameter stays a
     # parameter, the register expression becomes a transform
     for _ in range(ctx.n(60, 600)):
